@@ -719,13 +719,10 @@ func RestorePollardFrom(r io.Reader) (int64, *Pollard, error) {
 func (p *Pollard) readOne(n *polNode, r io.Reader) (int64, error) {
 	totalBytes := int64(0)
 
-	// Read from the reader. If we're at EOF, we've finished restoring
-	// the pollard.
+	// Read from the reader. Every node that readOne is called for was
+	// written out so hitting EOF here means that the stream is truncated.
 	readBytes, err := io.ReadFull(r, n.data[:])
 	if err != nil {
-		if err == io.EOF {
-			return int64(readBytes), nil
-		}
 		return totalBytes, err
 	}
 	totalBytes += int64(readBytes)
